@@ -117,6 +117,47 @@ func Load(dir string, libs []string, minPkgs int) (*World, error) {
 		}
 	}
 	all := ssautil.AllFunctions(prog)
+	// AllFunctions is reachability based: methods nobody references would be
+	// missing. Enumerate the module's declared functions and methods explicitly.
+	var addFn func(fn *ssa.Function)
+	addFn = func(fn *ssa.Function) {
+		if fn == nil || all[fn] {
+			if fn != nil {
+				for _, an := range fn.AnonFuncs {
+					addFn(an)
+				}
+			}
+			return
+		}
+		all[fn] = true
+		for _, an := range fn.AnonFuncs {
+			addFn(an)
+		}
+	}
+	for i, p := range pkgs {
+		if !strings.HasPrefix(p.PkgPath, w.ModPath) {
+			continue
+		}
+		sp := spkgs[i]
+		for _, m := range sp.Members {
+			switch m := m.(type) {
+			case *ssa.Function:
+				addFn(m)
+			case *ssa.Type:
+				if types.IsInterface(m.Type()) {
+					continue
+				}
+				for _, tt := range []types.Type{m.Type(), types.NewPointer(m.Type())} {
+					ms := prog.MethodSets.MethodSet(tt)
+					for k := 0; k < ms.Len(); k++ {
+						if obj, ok := ms.At(k).Obj().(*types.Func); ok && obj.Pkg() == p.Types {
+							addFn(prog.FuncValue(obj))
+						}
+					}
+				}
+			}
+		}
+	}
 	w.CG = vta.CallGraph(all, cha.CallGraph(prog))
 	for fn := range all {
 		if fn.Pkg == nil && fn.Parent() == nil {
